@@ -48,7 +48,7 @@ pub fn flat_world(rng: &mut Rng, nt: usize, ncmd: usize, max_retained: usize, un
         }
         targets.push(TargetSpec { path, ..Default::default() });
     }
-    WorldSpec { targets, cmd_files, files: vec![], sequences: vec![], max_retained_runs: max_retained, gitignore: vec![], git, lock_host: None, default_ports: 0 }
+    WorldSpec { targets, cmd_files, files: vec![], sequences: vec![], max_retained_runs: max_retained, gitignore: vec![], git, lock_host: None, default_ports: 0, omit_max_retained: false }
 }
 
 /// A run step over a flat world: explicit targets (or all), a subset of commands, serial-tagged output.
@@ -202,7 +202,7 @@ fn gen_c12_huge(rng: &mut Rng) -> C12Scenario {
         targets.push(TargetSpec { path, ..Default::default() });
     }
     let seq: Vec<String> = (0..165).map(|i| format!("c{:03}", i)).collect();
-    let spec = WorldSpec { targets, cmd_files, files: vec![], sequences: vec![("big".into(), seq)], max_retained_runs: 2, gitignore: vec![], git: false, lock_host: None, default_ports: 0 };
+    let spec = WorldSpec { targets, cmd_files, files: vec![], sequences: vec![("big".into(), seq)], max_retained_runs: 2, gitignore: vec![], git: false, lock_host: None, default_ports: 0, omit_max_retained: false };
     let small = |serial: usize, spec: &WorldSpec| {
         let t = spec.targets[serial % 5].path.clone();
         RunStep {
@@ -225,11 +225,15 @@ fn gen_c12(seed: u64, idx: usize, tier: Tier) -> C12Scenario {
     }
     // mostly small rings; one in eight a ring of 10-12 slots (two-digit slot names) with a history that wraps it
     let big_ring = rng.chance(1, 8);
-    let max = if big_ring { rng.range(10, 12) } else { *rng.pick(&[1usize, 2, 3, 5]) };
+    let max = if big_ring { *rng.pick(&[10usize, 10, 11, 12]) } else { *rng.pick(&[1usize, 2, 3, 5]) };
     let nt = rng.range(2, 4);
     let ncmd = rng.range(2, 3);
     let checkpointed = rng.chance(1, 3);
-    let spec = flat_world(&mut rng, nt, ncmd, max, 10, checkpointed);
+    let mut spec = flat_world(&mut rng, nt, ncmd, max, 10, checkpointed);
+    // a ring of ten may also be the documented default: the configuration then does not mention the key
+    if max == 10 && rng.chance(2, 3) {
+        spec.omit_max_retained = true;
+    }
     let mult = if tier == Tier::Thorough { rng.range(3, 6) } else { rng.range(3, 4) };
     let n = if big_ring { max + rng.range(2, 6) } else { (max * mult).max(4).min(24) };
     let mut runs: Vec<RunStep> = (1..=n).map(|i| gen_step(&mut rng, &spec, i, true, ncmd)).collect();
